@@ -944,7 +944,7 @@ def run_prop(pid, tier):
     ctx = Ctx(pid, tier, "model_checking", technique="AST-level symbolic execution of the real decoder source over z3 bit-vectors (pysym), per-path comparison with declarative reference decoders, sat models replayed on the real function")
     smt.reset_stats()
     sp = specs(pid, tier)
-    ctx.bounds.update({"cases": len(sp), "bitwidth": 32, "stream_bytes": "see case names (L / n)", "run_unwinding": 3})
+    ctx.bounds.update({"cases": len(sp), "bitwidth": 32, "stream_bytes": "see case names (L / n)", "run_unwinding": S.RUN_UNWIND})
     results = pmap(work, [(pid, s) for s in sp], chunksize=1)
     seen_src = set()
     for r in results:
